@@ -92,7 +92,7 @@ end Num
 end CtyModel
 
 namespace CtyModel
-namespace Stdlib
+namespace StdNum
 open Num Value
 
 @[simp] theorem arg0 (a : Value) (l : List Value) : arg (a :: l) 0 = .ok a := rfl
@@ -297,5 +297,5 @@ theorem int_frac (n : Bool) (m : Nat) (e : Int) (p : Nat) (hN : Normal (.fin n m
     simp [intImpl, hni, ht, Num.isInf]
   · exact setIntP_exact _ 0 (m / 2 ^ (-e).toNat) 0 (by simp [sval_natAbs]) (Or.inl rfl)
 
-end Stdlib
+end StdNum
 end CtyModel
